@@ -147,6 +147,30 @@ def oracle(run: runner.Run, oc: Outcome) -> None:
                     if _check_sequence(oc, 'handler', uid, hid, h, calls, default_backoff,
                                        counted=[p for _, p in pairs]):
                         limited += 1
+                    # the verdict recorded for a final outcome: success for ok and for an ignored error, failure
+                    # for a permanent one (visible whenever the cycle is not closed -- purged -- by the same write)
+                    mode_h = (h.get('opts', {}).get('errors') or 'temporary')
+                    for s in cyc:
+                        if s.how != 'returned' or not s.writes:
+                            continue
+                        for c in s.calls:
+                            if c.hid != hid or c.hkind not in common.CHANGE_KINDS:
+                                continue
+                            want_verdict = None
+                            if c.outcome == 'ok' or (c.outcome == 'exc' and mode_h == 'ignored'):
+                                want_verdict = 'success'
+                            elif c.outcome == 'perm' or (c.outcome == 'exc' and mode_h == 'permanent'):
+                                want_verdict = 'failure'
+                            if want_verdict is None:
+                                continue
+                            recs_ = [st.record_for(w.after, hid) for w in s.writes if w.after is not None]
+                            recs_ = [r for r in recs_ if r is not None]
+                            if recs_ and common.finished(recs_[-1]) and not recs_[-1].get(want_verdict):
+                                oc.add('C11/wrong-verdict', f'{c.outcome}:{mode_h}',
+                                       f"handler {hid} of {uid} ended its attempt #{c.n} with {c.outcome!r} under "
+                                       f"errors={mode_h} (retries={h.get('opts', {}).get('retries')}, timeout="
+                                       f"{h.get('opts', {}).get('timeout')}); it must be recorded as {want_verdict}, "
+                                       f"but the record is {recs_[-1]}", uid=uid, hid=hid)
                     # once out of attempts, the record says "failed" and the handler is never invoked again:
                     o = h.get('opts', {})
                     if o.get('retries') is not None and len(calls) >= o['retries'] and all(p for _, p in pairs) \
@@ -187,6 +211,23 @@ def oracle(run: runner.Run, oc: Outcome) -> None:
             for sq in seqs:
                 if _check_sequence(oc, h['kind'], uid, hid, h, sq, default_backoff):
                     limited += 1
+            # an ignored error counts as done: the timer goes on ticking
+            o_ = h.get('opts', {})
+            last = calls[-1]
+            interval = o_.get('interval')
+            if h['kind'] == 'timer' and mode_ == 'ignored' and last.outcome == 'exc' and last.t1 is not None \
+                    and interval is not None and o_.get('idle') is None:
+                op_ = run.op(opid)
+                rd_ = run.rdef('widgets')
+                obj = next((x for x in run.cluster.list(rd_, None) if x['metadata']['uid'] == uid), None)
+                quiet = not any(t >= last.t0 - 0.2 for t in disturb.get(uid, []))
+                if obj is not None and obj['metadata'].get('deletionTimestamp') is None and spawning.matches(h, obj) \
+                        and quiet and op_ is not None and op_.alive and inc == op_.incarnation \
+                        and run.sim.now > last.t1 + 2 * float(interval) + 1.0:
+                    oc.add('C11/wrong-verdict', 'timer-stopped-after-ignored-error',
+                           f"timer {hid} of {uid} (errors=ignored, retries={o_.get('retries')}, timeout={o_.get('timeout')}) "
+                           f"raised an arbitrary error at t={last.t1:.3f} and never ran again until t={run.sim.now:.1f} "
+                           f"(interval={interval})", uid=uid, hid=hid)
     oc.probes['probe.limit-or-permanent-ended-a-handler'] = limited
     if limited:
         oc.nontrivial = True
